@@ -1,6 +1,7 @@
 package scen
 
 import (
+	"errors"
 	"fmt"
 	"strings"
 	"math/rand/v2"
@@ -66,6 +67,13 @@ func (c13) Gen(r *rand.Rand, tier string, run int) *core.Case {
 	c.Params["conns"] = conns
 	c.Params["share_proxy"] = r.IntN(2)
 	c.Params["instrument"] = []int{0, 0, 0, 1, 2, 3}[r.IntN(6)]
+	if (c.Batch == "own" || c.Batch == "phased") && r.IntN(3) == 0 {
+		// one more subscriber, registered before everybody else, whose
+		// connection stops carrying what the server writes to it: the others
+		// must not notice
+		c.Params["broken"] = 1
+		c.Params["break_after"] = r.IntN(60)
+	}
 	emit := func(n int) {
 		for i := 0; i < n; i++ {
 			c.Ops = append(c.Ops, core.Op{Kind: "emit", Actor: 50, X: int64(r.IntN(4)), Y: int64(r.IntN(4))})
@@ -233,6 +241,8 @@ type c13state struct {
 	pairs []int // connection pair of each client connection
 }
 
+var errVictimBroken = errors.New("victim-broken: no route to host")
+
 func (c13) Run(c *core.Case, env *core.Env) {
 	st := &c13state{}
 	env.Set("st", st)
@@ -242,6 +252,52 @@ func (c13) Run(c *core.Case, env *core.Env) {
 		return
 	}
 	st.w = w
+	if c.P("broken", 0) == 1 {
+		vcl, err := Connect("victim", "u", "p")
+		if err != nil {
+			env.Violate("setup/connect", "%v", err)
+			return
+		}
+		vconn := env.NW.Conns()[len(env.NW.Conns())-1]
+		vp, err := ProbeProxy(vcl, w.ServiceID, 1)
+		if err != nil {
+			env.Violate("setup/proxy", "%v", err)
+			return
+		}
+		_, t1, e1 := vp.SubscribeTick()
+		_, t2, e2 := vp.SubscribeTock()
+		_, t3, e3 := vp.SubscribeLevel()
+		_, t4, e4 := vp.SubscribeNote()
+		if e1 != nil || e2 != nil || e3 != nil || e4 != nil {
+			env.Violate("setup/victim", "%v %v %v %v", e1, e2, e3, e4)
+			return
+		}
+		go func() {
+			for range t1 {
+			}
+		}()
+		go func() {
+			for range t2 {
+			}
+		}()
+		go func() {
+			for range t3 {
+			}
+		}()
+		go func() {
+			for range t4 {
+			}
+		}()
+		after := c.P("break_after", 0)
+		go func() {
+			for j := 0; j < after; j++ {
+				zzsim.Yield("h.break-delay")
+			}
+			zzsim.Event("the server's writes to the victim start failing")
+			vconn.Peer().FailWrites(errVictimBroken)
+			env.Probe("a-subscriber-became-unreachable")
+		}()
+	}
 	nConn := c.P("conns", 1)
 	clients := make([]bus.Client, nConn)
 	shared := make([]probe.ProbeProxy, nConn)
@@ -487,7 +543,10 @@ func (c13) Check(c *core.Case, env *core.Env, res zzsim.Result, v *core.Verdict)
 	emitted := [4]map[int32]c13emit{{}, {}, {}, {}}
 	for _, e := range st.emits {
 		emitted[e.sig][e.n] = e
-		if e.err != nil {
+		if e.err != nil && strings.Contains(e.err.Error(), "victim-broken") {
+			// the emitter is told that one subscriber could not be reached
+			env.Probe("emit-reported-the-unreachable-subscriber")
+		} else if e.err != nil {
 			bad("emit-error", "emitting sig%d n=%d failed: %v", e.sig, e.n, e.err)
 		}
 	}
@@ -718,7 +777,7 @@ func (c13) Check(c *core.Case, env *core.Env, res zzsim.Result, v *core.Verdict)
 			}
 		}
 		for n, e := range emitted[s.sig] {
-			if e.err != nil || got[n] || (s.cancelCall != 0 && e.end > s.cancelCall) {
+			if (e.err != nil && !strings.Contains(e.err.Error(), "victim-broken")) || got[n] || (s.cancelCall != 0 && e.end > s.cancelCall) {
 				continue
 			}
 			demanded := false
